@@ -4,7 +4,10 @@ from conf.common import *  # noqa
 HASHES = ["sha256", "mimc"]
 # the rest of the hash family: digest sizes 20, 28, 48, 64 bytes (stdlib) and MiMC over a second 4-limb field (32 bytes),
 # a 5-limb field (bw6-633 fr, 40 bytes) and a 6-limb field (bw6-761 fr, 48 bytes)
-MORE = ["sha1", "sha224", "sha384", "sha512", "mimc_bls12381", "mimc_bw6633", "mimc_bw6761"]
+MORE = ["sha1", "sha224", "sha384", "sha512", "mimc_bls12381", "mimc_bw6633", "mimc_bw6761",
+        # every other curve's fr/mimc package: each is its own (generated) code
+        "mimc_bls12377", "mimc_bls24315", "mimc_bls24317", "mimc_grumpkin"]
+MIMCS = ["mimc"] + [h for h in MORE if h.startswith("mimc_")]
 
 PROP = dict(
     rule=("a call history on one transcript (Bind / ComputeChallenge on declared and undeclared names, caller-side "
@@ -18,16 +21,21 @@ PROP = dict(
         "the hash is a black box: SHA-256 = crypto/sha256 of the concatenation; MiMC (bn254) = a fresh library MiMC instance fed one Write per "
         "chunk (MiMC itself is decided by C14), inputs restricted to what MiMC.Write documents: empty, < 32 bytes, or whole canonical blocks",
         "hash family: SHA-1/224/256/384/512 (crypto/*; digests 20..64 bytes) and MiMC over bn254, bls12-381 (32 bytes), bw6-633 (40) and "
-        "bw6-761 (48): the transcript takes any hash.Hash and must not assume a digest size",
+        "bw6-761 (48) and over bls12-377, bls24-315, bls24-317, grumpkin (32): the transcript takes any hash.Hash and must not assume a digest size",
         "caller-side mutation = append to (1, n, 2n+1 bytes, then every byte of the spare capacity) and overwrite in place every slice "
         "handed to Bind (handed over as a window of a larger caller buffer, which Bind must leave untouched) and every slice returned "
         "by ComputeChallenge; the model is never told",
+        "every slice ComputeChallenge ever returned (first computation and recomputation) is kept by the harness and compared, over its "
+        "full capacity, with its snapshot after every later Bind / ComputeChallenge of the history: a challenge the caller holds must not "
+        "change behind its back (e.g. through a hash whose Sum returns a view of an internal buffer)",
         "errors are compared by presence only (the error values are unexported)",
         "challenge names are distinct; duplicate names are undocumented by NewTranscript and only checked for absence of panics",
     ],
     # generator health: every digest-size class and every caller-side mutation kind must occur in each run
     mandatory_all=["digest:<32", "digest:=32", "digest:>32", "mut:overwrite_bound", "mut:append_bound",
-                   "mut:overwrite_returned", "mut:append_returned"],
+                   "mut:overwrite_returned", "mut:append_returned"]
+                  # one class per MiMC instance: the rapid machine, and the many-bindings sweep
+                  + MIMCS + [h + ":many_bindings" for h in MIMCS],
     jobs=[
         dict(name="exhaustive", pkg="c15", run="^TestC15_Exhaustive$", rapid=False, shards=HASHES, seeds=(8, 16),
              timeout=(600, 3000)),
